@@ -78,7 +78,7 @@ def grammar_part(prog, R):
                      f"{al[0]['what']}; contexts: {sorted(set(short(x['ctx']) + str(x['ctxwin'][:1]) for x in al))[:4]}")
             else:
                 R.ob("C01.2-PROGRESS", f"{short(fn)}:loop{i}", True, b.blocks[h].term["at"], "every abstract path around this loop consumes at least one token (or the back edge is unreachable)")
-    R.floor("grammar loops checked", nloops, 12)
+    R.floor("grammar loops checked", nloops, 8)
     # ---- call-graph cycles must contain a consuming edge
     graph = defaultdict(set)
     for (a, b_), consumed in G.edges.items():
@@ -89,6 +89,27 @@ def grammar_part(prog, R):
         fns_ = sorted(set(G.node_fn[x] for x in comp))
         R.ob("C01.2-PROGRESS-recursion", "+".join(short(x).split("::")[-1] for x in fns_), False, prog.body(fns_[0]).at,
              f"recursion cycle (context-sensitive call graph) without a guaranteed consumption on any of its call edges: {[(short(G.node_fn[x]), G.node_ctx[x]) for x in comp][:6]}")
+    # ---- C01.2 the "parser seems stuck" counter measures look-aheads since the last consumption: every consumption
+    # (Parser::do_bump, the only writer of pos) resets it, so that the limit bounds the work between two tokens and
+    # not the length of the input (the reviewed reason of the assertion in Parser::nth rests on this)
+    dbb = prog.body(PP + "Parser::do_bump")
+    if dbb is None:
+        R.ob("ANCHOR", PP + "Parser::do_bump", False)
+    else:
+        from sym import SymExec as _SE, deep_strip as _ds
+        steps_idx = [f["name"] for f in prog.adts[PP + "Parser"]["variants"][0]["fields"]].index("steps") if "steps" in [f["name"] for f in prog.adts[PP + "Parser"]["variants"][0]["fields"]] else None
+        oks = steps_idx is not None
+        if oks:
+            nres = 0
+            for p_ in _SE(prog, dbb).paths():
+                if "__diverged__" in p_.env:
+                    continue
+                sets = [c for c in p_.calls if c[0].endswith("Cell::set") and _ds(c[1][0]) == ("field", ("arg", 1, "self"), steps_idx) and _ds(c[1][1]) == ("c", "u32", 0)]
+                nres += 1
+                oks = oks and len(sets) >= 1
+            oks = oks and nres >= 1
+        R.ob("C01.2-step-counter-reset", "do_bump resets Parser.steps", oks, dbb.at, "every path of do_bump sets self.steps to 0" if oks else
+             "Parser::do_bump no longer resets the look-ahead counter on every path: the counter accumulates over the whole input and a long (valid) program trips the `parser seems stuck` assertion")
     # ---- C01.2 work per token / event / diagnostic is constant: in the cone of the text entry points no call scans a
     # growing collection (membership test, search, removal or insertion in the middle, sort, fold over a collection):
     # done once per event such a scan makes the parse quadratic in the number of tokens or diagnostics.  The three
